@@ -385,49 +385,12 @@ func runSorted(c *core.Ctx, sc *sortedCase) (class, what string, declared, kept 
 			if mi == 2 && (schemaLayoutError(b.tgt, mrg.Schema()) != "" || !parquet.EqualNodes(mrg.Schema(), b.ts)) {
 				continue
 			}
-			if mrg.NumRows() != int64(len(allWant)) {
-				class, what, _, _ = fail("converted-metadata-wrong", fmt.Sprintf("%s: NumRows() = %d for %d rows", m.name, mrg.NumRows(), len(allWant)))
-				return nil
-			}
-			r := mrg.Rows()
-			got, err := readAll(r, 2+int(sc.Case.Seed%5))
-			r.Close()
+			cl, w, err := mergedRowsCheck(b, m.name, mrg, allWant, 2+int(sc.Case.Seed%5))
 			if err != nil {
-				return fmt.Errorf("%s.Rows: %w", m.name, err)
+				return err
 			}
-			order, bad := orderColsOf(b.ts, b.tgt, mrg.SortingColumns())
-			if bad != "" {
-				class, what, _, _ = fail("sorting-columns-not-true", m.name+": "+bad)
-				return nil
-			}
-			bb := *b
-			bb.want = allWant
-			if len(order) == 0 {
-				// no order to merge on: the inputs one after the other
-				if cl, w := compareRows(&bb, got); cl != "" {
-					class, what, _, _ = fail(cl, m.name+" (no sorting columns: concatenation): "+w)
-					return nil
-				}
-				continue
-			}
-			if i, bad := unsortedAt(order, got); i >= 0 {
-				class, what, _, _ = fail("sorting-columns-not-true", fmt.Sprintf("%s declares the sorting columns %s, its rows are not in that order: row %d [%s] comes before row %d [%s] %s",
-					m.name, showOrder(order), i, core.Trunc(safeCanonRow(got[i]), 200), i+1, core.Trunc(safeCanonRow(got[i+1]), 200), bad))
-				return nil
-			}
-			// the same rows: put both sides in one canonical order
-			if len(got) != len(allWant) {
-				class, what, _, _ = fail("row-count", fmt.Sprintf("%s: %d rows in, %d rows out", m.name, len(allWant), len(got)))
-				return nil
-			}
-			byText := func(rows []parquet.Row) []parquet.Row {
-				out := append([]parquet.Row(nil), rows...)
-				sort.SliceStable(out, func(i, j int) bool { return safeCanonRow(out[i]) < safeCanonRow(out[j]) })
-				return out
-			}
-			bb.want = byText(allWant)
-			if cl, w := compareRows(&bb, byText(got)); cl != "" {
-				class, what, _, _ = fail(cl, m.name+" (rows put in one canonical order on both sides): "+w)
+			if cl != "" {
+				class, what, _, _ = fail(cl, w)
 				return nil
 			}
 		}
@@ -442,6 +405,59 @@ func runSorted(c *core.Ctx, sc *sortedCase) (class, what string, declared, kept 
 		return cl, what, declared, kept, mm
 	}
 	return class, what, declared, kept, mm
+}
+
+// mergedRowsCheck: a merged row group holds the wanted rows (all inputs), in
+// the order it declares; when it declares none, the inputs one after the other.
+func mergedRowsCheck(b *built, name string, mrg parquet.RowGroup, allWant []parquet.Row, batch int) (class, what string, err error) {
+	if mrg.NumRows() != int64(len(allWant)) {
+		return "converted-metadata-wrong", fmt.Sprintf("%s: NumRows() = %d for %d rows", name, mrg.NumRows(), len(allWant)), nil
+	}
+	r := mrg.Rows()
+	got, err := readAll(r, batch)
+	r.Close()
+	if err != nil {
+		return "", "", fmt.Errorf("%s.Rows: %w", name, err)
+	}
+	order, bad := orderColsOf(b.ts, b.tgt, mrg.SortingColumns())
+	if bad != "" {
+		return "sorting-columns-not-true", name + ": " + bad, nil
+	}
+	bb := *b
+	bb.want = allWant
+	if len(order) == 0 {
+		// no order to merge on: the inputs one after the other
+		if cl, w := compareRows(&bb, got); cl != "" {
+			return cl, name + " (no sorting columns: concatenation): " + w, nil
+		}
+		return "", "", nil
+	}
+	if i, bad := unsortedAt(order, got); i >= 0 {
+		return "sorting-columns-not-true", fmt.Sprintf("%s declares the sorting columns %s, its rows are not in that order: row %d [%s] comes before row %d [%s] %s",
+			name, showOrder(order), i, core.Trunc(safeCanonRow(got[i]), 200), i+1, core.Trunc(safeCanonRow(got[i+1]), 200), bad), nil
+	}
+	// the same rows: put both sides in one canonical order
+	if len(got) != len(allWant) {
+		return "row-count", fmt.Sprintf("%s: %d rows in, %d rows out", name, len(allWant), len(got)), nil
+	}
+	byText := func(rows []parquet.Row) []parquet.Row {
+		keys := make([]string, len(rows))
+		idx := make([]int, len(rows))
+		for i, r := range rows {
+			keys[i], idx[i] = safeCanonRow(r), i
+		}
+		sort.SliceStable(idx, func(i, j int) bool { return keys[idx[i]] < keys[idx[j]] })
+		out := make([]parquet.Row, len(rows))
+		for i, j := range idx {
+			out[i] = rows[j]
+		}
+		return out
+	}
+	bb.want = byText(allWant)
+	if cl, w := compareRows(&bb, byText(got)); cl != "" {
+		return cl, name + " (rows put in one canonical order on both sides): " + w, nil
+	}
+	return "", "", nil
 }
 
 func shrinkSorted(c *core.Ctx, sc sortedCase, class string) sortedCase {
